@@ -64,7 +64,7 @@ macro_rules! str_type {
 				f.eq(P_ZC, "new.allocs", a1 - a0, 0);
 				// ---- routes out (C14)
 				f.eq(P_OUT, "out.display", format!("{}", v), s.to_string());
-				f.eq(P_OUT, "out.debug", format!("{:?}", v), format!("{:?}", s));
+				f.ok(P_OUT, "out.debug", debug_shows(&format!("{:?}", v), s), || serde_json::json!({"debug": format!("{:?}", v), "text": s}));
 				f.eq(P_OUT, "out.as_bytes", v.as_bytes(), s.as_bytes());
 				f.eq(P_OUT, "out.as_ref_str", AsRef::<str>::as_ref(v), s);
 				f.eq(P_OUT, "out.as_ref_bytes", AsRef::<[u8]>::as_ref(v), s.as_bytes());
@@ -75,7 +75,7 @@ macro_rules! str_type {
 				f.eq(P_OUT, "out.to_owned", owned.as_str(), s);
 				f.eq(P_OUT, "out.clone", owned.clone().as_str(), s);
 				f.eq(P_OUT, "out.buf_display", format!("{}", owned), s.to_string());
-				f.eq(P_OUT, "out.buf_debug", format!("{:?}", owned), format!("{:?}", s));
+				f.ok(P_OUT, "out.buf_debug", debug_shows(&format!("{:?}", owned), s), || serde_json::json!({"debug": format!("{:?}", owned), "text": s}));
 				f.eq(P_OUT, "out.buf_as_bytes", owned.as_bytes(), s.as_bytes());
 				f.eq(P_OUT, "out.buf_as_ref_str", AsRef::<str>::as_ref(&owned), s);
 				f.eq(P_OUT, "out.buf_borrow_str", std::borrow::Borrow::<str>::borrow(&owned), s);
@@ -245,7 +245,7 @@ macro_rules! byte_type {
 				if let Ok(s) = std::str::from_utf8(b) {
 					f.eq(P_OUT, "out.as_str", v.as_str(), s);
 					f.eq(P_OUT, "out.display", format!("{}", v), s.to_string());
-					f.eq(P_OUT, "out.debug", format!("{:?}", v), format!("{:?}", s));
+					f.ok(P_OUT, "out.debug", debug_shows(&format!("{:?}", v), s), || serde_json::json!({"debug": format!("{:?}", v), "text": s}));
 					f.eq(P_OUT, "out.as_ref_str", AsRef::<str>::as_ref(v), s);
 					f.eq(P_OUT, "out.as_ref_bytes", AsRef::<[u8]>::as_ref(v), b);
 					f.eq(P_OUT, "out.borrow_bytes", std::borrow::Borrow::<[u8]>::borrow(v), b);
@@ -256,7 +256,7 @@ macro_rules! byte_type {
 					f.eq(P_OUT, "out.to_owned", owned.as_bytes(), b);
 					f.eq(P_OUT, "out.clone", owned.clone().as_bytes(), b);
 					f.eq(P_OUT, "out.buf_display", format!("{}", owned), s.to_string());
-					f.eq(P_OUT, "out.buf_debug", format!("{:?}", owned), format!("{:?}", s));
+					f.ok(P_OUT, "out.buf_debug", debug_shows(&format!("{:?}", owned), s), || serde_json::json!({"debug": format!("{:?}", owned), "text": s}));
 					f.eq(P_OUT, "out.buf_as_str", owned.as_str(), s);
 					f.eq(P_OUT, "out.buf_as_ref_str", AsRef::<str>::as_ref(&owned), s);
 					f.eq(P_OUT, "out.buf_borrow_bytes", std::borrow::Borrow::<[u8]>::borrow(&owned), b);
